@@ -129,8 +129,9 @@ EndRowRes(cells, k) ==
 EndRow ==
   /\ CanStep /\ ws = "R"
   /\ LET r == EndRowRes(pendingCell, col) IN
-     /\ Log([op |-> "end_row"], IF r.ok THEN "ok" ELSE "err")
-     /\ Put(r.p) /\ col' = r.c /\ outcome' = IF r.ok THEN outcome ELSE "err"
+     /\ IF r.ok THEN Log([op |-> "end_row"], "ok") ELSE Log([op |-> "end_row", cont |-> Recover], "err")
+     \* a refused end_row changes nothing: the shim may add the missing cells and try again
+     /\ Put(r.p) /\ col' = r.c /\ outcome' = IF r.ok \/ Recover THEN outcome ELSE "err"
      /\ pendingCell' = IF r.ok THEN << >> ELSE pendingCell
   /\ UNCHANGED <<ws, isBin, lastEnd, cols, started>>
 \* write_row(vs): write_col for each value (stopping at the first refusal), then end_row
